@@ -174,7 +174,7 @@ def _check_policy(ctx: Ctx) -> None:
         (is_neg_test, ['tested', 'neg'], ['tested']),
         (lambda t: is_policy_test(t) and policy_flags(t)[0] == ['pol-clamp'], ['pol-clamp'], ['pol-raise']),
         (lambda t: is_policy_test(t) and policy_flags(t)[0] == ['pol-raise'], ['pol-raise'], ['pol-clamp']),
-    ], stmt_rules=[(is_clamp, ['clamped'])])
+    ], stmt_rules=[(is_clamp, ['clamped'])], expand=__import__('sa.astutil', fromlist=['expander']).expander(fn))
     it.run(FlagInterp.start())
     ctx.instance('C13.b', q)
     bad_ret, bad_raise = [], []
